@@ -458,3 +458,4 @@ def values_representation(u: Unit):
                 ok = items is not None and len(items) == int(kind[-1]) and all(isinstance(x, VStr) and x.v == "_" for x in items)
             u.oblige(p, f"values.representation[{kind}]", bool(ok), {"stored as": type(v).__name__ if not isinstance(v, VRef) else type(p.st.cell(v)).__name__}, VALUES_REPLAY)
         u.cover(f"values.representation.cover[{kind}]", ps, lambda p: p.kind == "return")
+unit("C10", "run_calibration.history")(_CR.run_calibration_history_unit)      # every run optimises the problem of the declarations in force when it starts
